@@ -177,11 +177,32 @@ class StepClock:
         self.codes = len(seen)
         self.installed = True
 
-    def start(self, budget):
+    CPU_S = 120.0  # CPU seconds one SUT call may burn where the step clock cannot see (inside C code: regex, zlib ...)
+
+    def _cpu_alarm(self, signum, frame):
+        self.budget = 1 << 62
+        raise SimBudgetExceeded("cpu-seconds")
+
+    def start(self, budget, cpu_s=None):
+        """Arms the step budget and a watchdog on the process's own CPU time (ITIMER_VIRTUAL: it does not run while the
+        process waits for a core, so a loaded machine does not trip it)."""
+        import signal
+
         self.n = 0
         self.budget = budget
+        try:
+            signal.signal(signal.SIGVTALRM, self._cpu_alarm)
+            signal.setitimer(signal.ITIMER_VIRTUAL, cpu_s or self.CPU_S)
+            self._armed = True
+        except (ValueError, OSError, AttributeError):
+            self._armed = False  # not the main thread / not supported: step budget only
 
     def stop(self):
+        import signal
+
+        if getattr(self, "_armed", False):
+            signal.setitimer(signal.ITIMER_VIRTUAL, 0)
+            self._armed = False
         self.budget = 1 << 62
         return self.n
 
